@@ -410,9 +410,14 @@ def lookalike_pair(rng, prog, tid_a, tid_b, style=None):
     (same length, same prefix)."""
     toks = list(prog.tokens)
     idx = [i for i, t in enumerate(toks) if len(t) >= 2 and t[0] in "\"'" and t[-1] == t[0]]
-    style = style or rng.choice(list(LOOKALIKE_TAILS) + ["weight"])
+    style = style or rng.choice(list(LOOKALIKE_TAILS) + ["weight", "num_type", "num_type", "quote_num", "quote_num"])
     widx = [i for i, t in enumerate(toks) if i > 0 and toks[i - 1] == "weighted" and t.isdigit()]
     if style == "weight" and not widx:
+        style = "line"
+    if style in ("num_type", "quote_num"):
+        pair = _numeric_lookalike(rng, prog, tid_a, tid_b, style)
+        if pair:
+            return pair
         style = "line"
     if style != "weight" and not idx:
         return None
@@ -440,6 +445,55 @@ def lookalike_pair(rng, prog, tid_a, tid_b, style=None):
         q.text = render(_random.Random(layout_seed), t2, p_comment=0.0, compact=True)
         q.kind = "valid"
         q.note = "lookalike (%s) of %s" % (style, prog.tid)
+        out.append(q)
+    return out
+
+
+def _numeric_lookalike(rng, prog, tid_a, tid_b, style):
+    """num_type: one group label is the number N in text A and N.0 in text B (equal as values, different as results);
+    quote_num: one member of a tuple is the number N in A and the string "N" in B."""
+    import random as _random
+
+    toks = list(prog.tokens)
+    if style == "num_type":
+        cand = [i for i, t in enumerate(toks) if i + 1 < len(toks) and toks[i + 1] == "weighted"]
+        if not cand:
+            return None
+        i = rng.choice(cand)
+        n = str(rng.choice([1, 2, 7, 10, 100]))
+        reps = (n, n + ".0")
+    else:
+        cand = [i for i, t in enumerate(toks) if t.isdigit() and i > 0 and toks[i - 1] in ("(", ",") and i + 1 < len(toks)
+                and toks[i + 1] in (",", ")") and not (i > 1 and toks[i - 2] == "weighted")]
+        cand = [i for i in cand if "weighted" not in toks[max(0, i - 1):i]]
+        if not cand:
+            return None
+        i = rng.choice(cand)
+        reps = (toks[i], '"' + toks[i] + '"')
+        # the field the tuple is tested against, so that panels contain the value that tells the two texts apart
+        j = i
+        while j > 0 and toks[j] != "(":
+            j -= 1
+        fld = None
+        if j >= 2 and toks[j - 1] == "in":
+            fld = toks[j - 3] if toks[j - 2] == "not" and j >= 3 else toks[j - 2]
+        must = (fld, int(toks[i])) if fld and fld.isidentifier() else None
+    out = []
+    layout_seed = rng.randrange(1 << 30)
+    for n_, tid in enumerate((tid_a, tid_b)):
+        q = Program()
+        q.tid = tid
+        q.name, q.salt, q.splitters = prog.name, prog.salt, list(prog.splitters)
+        q.cond_fields, q.literals, q.n_returns = list(prog.cond_fields), dict(prog.literals), prog.n_returns
+        t2 = list(toks)
+        t2[i] = reps[n_]
+        q.tokens = t2
+        q.text = render(_random.Random(layout_seed), t2, p_comment=0.0, compact=True)
+        q.kind = "valid"
+        q.note = "lookalike (%s) of %s" % (style, prog.tid)
+        if style == "quote_num" and must:
+            q.literals = dict(q.literals)
+            q.literals[must[0]] = [must[1]] * 6 + [str(must[1])]      # panels lean towards the distinguishing value
         out.append(q)
     return out
 
